@@ -224,6 +224,18 @@ def check_framing(ctx):
     ok = call_name(cc) == "self._receive_buffer.wait_for" or _availability_checked(cfg, cn, env, K)
     ctx.ob("C04.P1", q, ok, "the frame is consumed only when it is complete (blocking wait for that many bytes, or an availability test of the same size)" if ok else
            "the frame bytes are popped without waiting for / testing the full frame size: a frame cut by TCP segmentation is decoded from a short slice", key="complete-before-consume", where=f.where)
+    # every frame length the four prefix bytes can announce is a frame: between the look-ahead and the consuming read no
+    # branch depends on the announced length except a test that the bytes have arrived
+    lenvars = {name for name, (dep, _) in env.items() if dep}
+    refusing = []
+    for n in cfg.nodes:
+        if n.kind != "test" or not (pn is n or cfg.dominates(pn, n)) or not cfg.path_exists(n, cn):
+            continue
+        names = {x.id for x in ast.walk(n.ast) if isinstance(x, ast.Name)}
+        if names & lenvars and "len(self._receive_buffer)" not in norm(n.ast):
+            refusing.append(n)
+    ctx.ob("C04.P1", q, not refusing, "no frame is refused because of its announced length" if not refusing else
+           f"`{norm(refusing[0].ast)}` decides on the announced frame length: a legal frame of that size is dropped (and what follows it is misframed)", key="any-length", where=f.where)
     # loop guard
     heads = [n for n in cfg.nodes if n.kind == "test" and n.label == "while"]
     if not heads and not any(isinstance(x, (ast.While, ast.For)) for x in ast.walk(fn)):
@@ -415,6 +427,11 @@ def run(ctx):
     from . import c05
 
     c05.shared(ctx, "C04.W1")  # a lost link leaves no partial frame in the buffer (it would be merged into the next connection's stream)
+    # frames that share a TCP segment are handled one after the other on the dispatcher thread: a control frame changes the
+    # session state in its own handler, before the next frame of the segment is judged (C05.P1)
+    from .. import report
+
+    report.share(ctx, "C04.W1", c05.check_control, only={"C05.P1"})
     check_dispatcher(ctx, "C04.W1", wakeups=True, consumers=True, reconnect=True)
     # ... and the one consumer hands each message on itself: a thread per message lets later frames overtake earlier ones
     # (the no-spawn rule of C06.P2, for the HSMS side)
